@@ -114,7 +114,7 @@ func evalRecovered(e *Env, prop string, cfg Cfg, img []byte, last *State, inprog
 		})
 		e.Res.Evals += n2
 	}
-	if !e.Failed() {
+	if !e.Failed() && !(d2.LogData && outOfTime()) {
 		r2.Reopen()
 	}
 }
